@@ -53,6 +53,31 @@ CONTAINER_METHODS = {"append", "pop", "remove", "insert", "add", "index", "count
                      "discard", "get", "items", "keys", "values", "setdefault", "update", "clear"}
 
 
+import functools as _functools
+import itertools as _itertools
+import operator as _operator
+import types as _types
+
+# side-effect-free standard-library plumbing the interpreted code may use; these are part of the interpreter, not of the
+# analysed repository
+PURE_MODULES = {"operator": _operator, "itertools": _itertools, "functools": _functools}
+PURE_MODULE_NAMES = {"reduce": _functools.reduce, "partial": _functools.partial, "chain": _itertools.chain,
+                     "islice": _itertools.islice, "accumulate": _itertools.accumulate, "product": _itertools.product,
+                     "zip_longest": _itertools.zip_longest, "starmap": _itertools.starmap, "repeat": _itertools.repeat,
+                     "count": _itertools.count, "cycle": _itertools.cycle, "takewhile": _itertools.takewhile,
+                     "dropwhile": _itertools.dropwhile, "groupby": _itertools.groupby, "tee": _itertools.tee,
+                     "combinations": _itertools.combinations, "permutations": _itertools.permutations,
+                     "pairwise": getattr(_itertools, "pairwise", None), "itemgetter": _operator.itemgetter,
+                     "attrgetter": _operator.attrgetter}
+
+
+def _is_pure_callable(f):
+    mod = getattr(f, "__module__", None) or getattr(getattr(f, "__self__", None), "__module__", None)
+    return callable(f) and (mod in ("operator", "_operator", "itertools", "functools", "_functools")
+                            or isinstance(f, (_functools.partial, _operator.itemgetter, _operator.attrgetter))
+                            or getattr(f, "__self__", None) is _itertools.chain)
+
+
 NUMBER_METHODS = {"limit_denominator", "is_integer", "as_integer_ratio", "conjugate", "bit_length"}   # pure
 
 
@@ -69,11 +94,25 @@ class Ev:
         self.steps = 0
 
     def run(self, body):
+        # a generator function is evaluated eagerly: its yields are collected and handed out as an iterator
+        is_gen = any(isinstance(n, (ast.Yield, ast.YieldFrom)) for st in body for n in self._own_nodes(st))
+        self.yields = []
         try:
             self.block(body)
         except _Ret as r:
-            return r.v
-        return None
+            return iter(self.yields) if is_gen else r.v
+        return iter(self.yields) if is_gen else None
+
+    @staticmethod
+    def _own_nodes(st):
+        """nodes of a statement, not descending into nested function definitions"""
+        stack = [st]
+        while stack:
+            n = stack.pop()
+            yield n
+            for c in ast.iter_child_nodes(n):
+                if not isinstance(c, (ast.FunctionDef, ast.Lambda, ast.AsyncFunctionDef)):
+                    stack.append(c)
 
     def block(self, body):
         for st in body:
@@ -294,6 +333,8 @@ class Ev:
                 return {"True": True, "False": False, "None": None}[e.id]
             if PURE_BUILTINS.get(e.id) is not None:
                 return PURE_BUILTINS[e.id]
+            if PURE_MODULE_NAMES.get(e.id) is not None:
+                return PURE_MODULE_NAMES[e.id]
             raise Undecided("name " + e.id)
         if isinstance(e, (ast.Tuple, ast.List, ast.Set)) and any(isinstance(x, ast.Starred) for x in e.elts):
             vals = []
@@ -357,6 +398,17 @@ class Ev:
                 return base[lo:hi:stp]
             return base[self.ev(e.slice)]
         if isinstance(e, ast.Attribute):
+            if isinstance(e.value, ast.Name) and e.value.id not in self.env and e.value.id in PURE_MODULES \
+                    and hasattr(PURE_MODULES[e.value.id], e.attr):
+                return getattr(PURE_MODULES[e.value.id], e.attr)
+            if isinstance(e.value, (ast.Name, ast.Attribute)):
+                try:
+                    base = self.ev(e.value) if not (isinstance(e.value, ast.Name) and e.value.id not in self.env
+                                                    and e.value.id not in PURE_MODULE_NAMES) else None
+                except Undecided:
+                    base = None
+                if base is _itertools.chain and e.attr == "from_iterable":
+                    return _itertools.chain.from_iterable
             if self.attr_hook:
                 h = self.attr_hook(self, e)
                 if h is not NotImplemented:
@@ -393,6 +445,12 @@ class Ev:
             v = self.ev(e.value)
             self.assign(e.target, v)
             return v
+        if isinstance(e, ast.Yield):
+            self.yields.append(self.ev(e.value) if e.value is not None else None)
+            return None
+        if isinstance(e, ast.YieldFrom):
+            self.yields.extend(list(self.ev(e.value)))
+            return None
         if isinstance(e, ast.Call):
             # arguments are evaluated exactly once (they may have side effects such as list.pop)
             args = []
@@ -421,6 +479,13 @@ class Ev:
                     return getattr(recv, e.func.attr)(*args, **kwargs)
             if isinstance(e.func, ast.Name) and getattr(self.env.get(e.func.id), "_ev_closure", False):
                 return self.env[e.func.id](*args, **kwargs)          # local function / lambda bound to a name
+            if isinstance(e.func, (ast.Name, ast.Attribute)):
+                try:
+                    fv = self.ev(e.func)
+                except Undecided:
+                    fv = None
+                if fv is not None and _is_pure_callable(fv):
+                    return fv(*args, **kwargs)                       # operator.add, reduce, chain.from_iterable ...
             if isinstance(e.func, ast.Attribute) and e.func.attr in NUMBER_METHODS:
                 recv = self.ev(e.func.value)
                 if isinstance(recv, (int, float, Fr)) and not isinstance(recv, bool) and hasattr(recv, e.func.attr):
